@@ -251,7 +251,8 @@ def gen(rng, tier, props=("C04",)):
             for sl in sls:
                 toks += sl.tokens()
         meta = {"t": t, "lay": lay, "es": es, "strides": src.strides, "boundary": boundary, "big": big, "nlev": len(levels),
-                "levels": [[(s.kind, s.mask, s.vals) for s in sls] for sls in levels], "rank": R, "pat": list(src.inst.pat)}
+                "levels": [[(s.kind, s.mask, s.vals) for s in sls] for sls in levels], "rank": R, "pat": list(src.inst.pat),
+                "levels_full": [[(s.kind, s.mask, s.vals, s.ctype) for s in sls] for sls in levels]}
         cases.append((pr, toks, meta))
         hist["layout=%s" % LAYOUTS[lay]] += 1
         hist["levels=%d" % len(levels)] += 1
